@@ -7,14 +7,13 @@ import (
 	"strings"
 
 	"go.lstv.dev/util/uu"
+	"verif/libdefaults"
 	"verif/mc"
 	"verif/oracle"
 )
 
 func reset() {
-	uu.MaxInputLength = 45
-	uu.Formatter = uu.DefaultFormatter
-	uu.Parser = uu.DefaultParser[[]byte]
+	libdefaults.UU()
 }
 
 type idArg struct {
@@ -154,7 +153,7 @@ type txtArg struct {
 }
 
 func setupText(a txtArg) {
-	uu.MaxInputLength = 45
+	uu.MaxInputLength = libdefaults.UUMaxInputLength // default configuration: whatever the library starts with (the oracle assumes the documented 45)
 	if a.Max != nil {
 		uu.MaxInputLength = *a.Max
 	}
